@@ -1,2 +1,220 @@
--- stub: driver for C01 not written yet
-def main : IO Unit := pure ()
+import CMacVerif.Model.PhotonProtocol
+import CMacVerif.Util.Bits
+open CMacVerif CMacVerif.Util CMacVerif.Photon
+
+/-! Line-protocol driver for C01: replays the records of a hook-H2 trace through `Photon.step`
+(every record must be an enabled label; the post-values are printed and compared with the
+logged ones by tools/props/c01.py) and evaluates the DistributedPhotonSource model. -/
+
+structure St where
+  cfg : Cfg := { N := 0, nsrc := 0, srcSub := fun _ => 0, norig := 0, nblocks := 0, ngb := fun _ _ => none,
+                 o2i := fun i => i, reemission := false, bufCap := 0, taskCap := 0 }
+  nsub : Nat := 0
+  totals : List (Nat × Nat × Nat) := []      -- (source copy, subgrid, total)
+  ngbs : List (Nat × List (Option Nat)) := []
+  s : State := init (fun _ => []) []
+  doneBefore : Nat := 0
+
+def int! (s : String) : Int := s.toInt?.getD 0
+def optOfInt (i : Int) : Option Nat := if i < 0 then none else some i.toNat
+
+/-- replace the update chains of the state by table look-ups (extensionally the same state) -/
+def normalize (st : St) : State :=
+  let s := st.s
+  let c := st.cfg
+  let pool := ((List.range c.bufCap).map s.pool).toArray
+  let tasks := ((List.range c.taskCap).map s.tasks).toArray
+  let act := ((List.range st.nsub).map fun g => ((List.range NDIR).map (s.active g)).toArray).toArray
+  let lg := ((List.range st.nsub).map s.largest).toArray
+  let cont := ((List.range c.nblocks).map fun b => ((List.range c.norig).map fun g => s.cont (b, g)).toArray).toArray
+  let src := ((List.range c.nsrc).map s.srcLeft).toArray
+  { s with
+    pool := fun b => if h : b < pool.size then pool[b] else s.pool b
+    tasks := fun t => if h : t < tasks.size then tasks[t] else s.tasks t
+    active := fun g i => if h : g < act.size then (if h2 : i < act[g].size then act[g][i] else s.active g i) else s.active g i
+    largest := fun g => if h : g < lg.size then lg[g] else s.largest g
+    cont := fun k => if h : k.1 < cont.size then (if h2 : k.2 < cont[k.1].size then cont[k.1][k.2] else s.cont k) else s.cont k
+    srcLeft := fun i => if h : i < src.size then src[i] else s.srcLeft i }
+
+def kindStr (s : State) : Kind → String
+  | .source src ids => s!"source {src} {ids.length}"
+  | .contSource c n _ => s!"contsource {c} {n}"
+  | .traverse b => s!"traverse {match s.pool b with | some buf => toString buf.sub | none => "?"} {b}"
+  | .reemit b => s!"reemit {match s.pool b with | some buf => toString buf.sub | none => "?"} {b}"
+  | .flush c => s!"flush {c} 0"
+
+def stStr : TSt → String
+  | .pending => "pending" | .queued => "queued" | .running => "running"
+
+def taskStr (s : State) (t : Nat) : String :=
+  match s.tasks t with
+  | some ⟨k, st⟩ => s!"{kindStr s k} {stStr st}"
+  | none => "free"
+
+def apply (st : St) (l : Label) : Option St :=
+  match step st.cfg st.s l with
+  | some s' => let st' := { st with s := s' }; some { st' with s := normalize st' }
+  | none => none
+
+def applyAll (st : St) : List Label → Option St
+  | [] => some st
+  | l :: ls => match apply st l with | some st' => applyAll st' ls | none => none
+
+def countTasks (st : St) (p : Task → Bool) : Nat :=
+  ((List.range st.cfg.taskCap).filter fun t => match st.s.tasks t with | some tk => p tk | none => false).length
+
+def parseNats (l : List String) : List Nat := l.map nat!
+
+/-- "d:out:na:nb:nt" -/
+def parseDir (w : String) : Nat × Nat × DirRes × Bool :=
+  match (w.splitOn ":").map int! with
+  | [d, o, na, nb, nt] => (d.toNat, o.toNat, ⟨na.toNat, nb.toNat, nt.toNat⟩, decide (0 ≤ nb))
+  | _ => (0, 0, ⟨0, 0, 0⟩, false)
+
+def splitBar (ws : List String) : List (List String) :=
+  ws.foldr (fun w acc => if w == "|" then [] :: acc else match acc with | a :: r => (w :: a) :: r | [] => [[w]]) [[]]
+
+def showList (l : List Nat) : String := " ".intercalate (l.map toString)
+
+def handle (st : St) : List String → St × String
+  | ["cfg", n, nsrc, norig, nblocks, reem, bcap, tcap, nsub] =>
+    ({ cfg := { st.cfg with N := nat! n, nsrc := nat! nsrc, norig := nat! norig, nblocks := nat! nblocks,
+                            reemission := reem == "1", bufCap := nat! bcap, taskCap := nat! tcap,
+                            ngb := fun _ _ => none, srcSub := fun _ => 0 },
+       nsub := nat! nsub, totals := [], ngbs := [], s := init (fun _ => []) [] }, "cfg ok")
+  | "ngb" :: g :: rest =>
+    let row := rest.map fun w => optOfInt (int! w)
+    let ngbs := (nat! g, row) :: st.ngbs
+    let arr := ((List.range st.nsub).map fun g => ((ngbs.find? (·.1 == g)).map (·.2)).getD []).toArray
+    ({ st with ngbs := ngbs, cfg := { st.cfg with ngb := fun g i => ((arr.getD g []).getD i none) } }, "ngb ok")
+  | ["src", i, g, tot] =>
+    let totals := st.totals ++ [(nat! i, nat! g, nat! tot)]
+    let subs := (totals.map fun p => p.2.1).toArray
+    ({ st with totals := totals, cfg := { st.cfg with srcSub := fun i => subs.getD i 0 } }, "src ok")
+  | ["init", ncont] =>
+    -- packet identifiers: consecutive blocks per source copy, then the continuous packets
+    let (srcIds, next) := st.totals.foldl (fun (acc : List (List Nat) × Nat) p =>
+        (acc.1 ++ [(List.range p.2.2).map (· + acc.2)], acc.2 + p.2.2)) ([], 0)
+    let arr := srcIds.toArray
+    let contIds := (List.range (nat! ncont)).map (· + next)
+    let st' := { st with s := init (fun i => arr.getD i []) contIds, doneBefore := 0 }
+    ({ st' with s := normalize st' }, s!"init {next + nat! ncont}")
+  | ["launch", t, src] =>
+    match apply st (.launchBatch (nat! src) (nat! t)) with
+    | some st' => (st', s!"launch {taskStr st'.s (nat! t)} #launch-discrete")
+    | none => (st, "launch DISABLED")
+  | ["launchc", t] =>
+    match apply st (.launchCont (nat! t)) with
+    | some st' => (st', s!"launchc {taskStr st'.s (nat! t)} #launch-continuous")
+    | none => (st, "launchc DISABLED")
+  | ["acq", t] =>
+    match apply st (.acquire (nat! t)) with
+    | some st' => (st', s!"acq {taskStr st'.s (nat! t)} #acquire")
+    | none => (st, s!"acq DISABLED {taskStr st.s (nat! t)}")
+  | ["enq", t] =>
+    match apply st (.enqueue (nat! t)) with
+    | some st' => (st', s!"enq {taskStr st'.s (nat! t)} #enqueue")
+    | none => (st, s!"enq DISABLED {taskStr st.s (nat! t)}")
+  | ["srcx", t, b, t'] =>
+    match apply st (.execSource (nat! t) (nat! b) (nat! t')) with
+    | some st' => (st', s!"srcx buf={bufLen st'.s.pool (nat! b)} task={taskStr st'.s (nat! t')} #exec-source")
+    | none => (st, s!"srcx DISABLED {taskStr st.s (nat! t)} buf-free={bufFree st.cfg st.s (nat! b)} task-free={taskFree st.cfg st.s (nat! t')}")
+  | ["cover", t, g, b, t'] =>
+    -- continuous source: the buffer of subgrid g overflowed (fill it up first)
+    match st.s.tasks (nat! t) with
+    | some ⟨.contSource c _ _, .running⟩ =>
+      let k := BUFSZ - (st.s.cont (c, nat! g)).length
+      let ls := (if k = 0 then [] else [Label.contGen (nat! t) (nat! g) k]) ++ [Label.contOverflow (nat! t) (nat! g) (nat! b) (nat! t')]
+      match applyAll st ls with
+      | some st' => (st', s!"cover buf={bufLen st'.s.pool (nat! b)} task={taskStr st'.s (nat! t')} #cont-overflow")
+      | none => (st, "cover DISABLED")
+    | _ => (st, s!"cover DISABLED {taskStr st.s (nat! t)}")
+  | "cfin" :: t :: rest =>
+    -- rest = sizes of the block's buffers per subgrid | flush task ids
+    match splitBar rest, st.s.tasks (nat! t) with
+    | [sizes, fl], some ⟨.contSource c _ _, .running⟩ =>
+      let gens := (sizes.map nat!).zipIdx.filterMap fun (sz, g) =>
+        let cur := (st.s.cont (c, g)).length
+        if cur < sz then some (Label.contGen (nat! t) g (sz - cur)) else none
+      match applyAll st (gens ++ [Label.contFinish (nat! t) (parseNats fl)]) with
+      | some st' =>
+        let nf (x : St) := countTasks x fun tk => match tk.kind with | .flush _ => true | _ => false
+        (st', s!"cfin left={st'.s.contLeft} flush={nf st' - nf st} #cont-finish{if fl.isEmpty then "" else "-flush"}")
+      | none => (st, s!"cfin DISABLED {taskStr st.s (nat! t)} left={st.s.contLeft}")
+    | _, _ => (st, s!"cfin DISABLED {taskStr st.s (nat! t)}")
+  | ["fone", t, g, b, t'] =>
+    match apply st (.flushOne (nat! t) (nat! g) (nat! b) (nat! t')) with
+    | some st' => (st', s!"fone buf={bufLen st'.s.pool (nat! b)} task={taskStr st'.s (nat! t')} #flush-one")
+    | none => (st, s!"fone DISABLED {taskStr st.s (nat! t)}")
+  | ["ffin", t] =>
+    match apply st (.flushFinish (nat! t)) with
+    | some st' => (st', "ffin ok #flush-finish")
+    | none => (st, s!"ffin DISABLED {taskStr st.s (nat! t)}")
+  | "trav" :: t :: gone :: rest =>
+    match st.s.tasks (nat! t) with
+    | some ⟨.traverse b0, .running⟩ =>
+      match st.s.pool b0 with
+      | some buf =>
+        let dirs := rest.map parseDir
+        let g := buf.sub
+        -- physics outcome: the first out(d) packets leave through d (in the order given), the last `gone`
+        -- packets are not stored (a disabled direction)
+        let dis := (List.range NDIR).find? fun i => !dirEnabled st.cfg g i
+        let fates := (dirs.flatMap fun d => List.replicate d.2.1 d.1) ++ List.replicate (nat! gone) (dis.getD NDIR)
+        let res := (List.range NDIR).map fun i => ((dirs.find? (·.1 == i)).map (·.2.2.1)).getD ⟨0, 0, 0⟩
+        match apply st (.execTraverse (nat! t) fates res) with
+        | some st' =>
+          let per := dirs.map fun d =>
+            let a := (st.s.active g d.1).getD d.2.2.1.na
+            s!"d{d.1}={bufLen st'.s.pool a},{if d.2.2.2 then toString (bufLen st'.s.pool d.2.2.1.nb) else "-"}"
+          let ovf := dirs.any fun d => match st'.s.tasks d.2.2.1.nt with | some ⟨_, .pending⟩ => (st.s.tasks d.2.2.1.nt).isNone | _ => false
+          let newa := dirs.any fun d => (st.s.active g d.1).isNone
+          let tag := (if ovf then "-overflow" else "") ++ (if newa then "-newactive" else "") ++ (if nat! gone > 0 then "-gone" else "")
+          ({ st' with doneBefore := st'.s.done.length },
+           s!"trav sub={g} in={buf.ids.length} done={st'.s.done.length - st.s.done.length} largest={(st'.s.largest g).1},{(st'.s.largest g).2} {" ".intercalate per} #traverse{tag}")
+        | none => (st, s!"trav DISABLED fates={fates.length} in={buf.ids.length} dis={dis}")
+      | none => (st, "trav DISABLED input-buffer-not-in-use")
+    | _ => (st, s!"trav DISABLED {taskStr st.s (nat! t)}")
+  | ["reem", t, k, t'] =>
+    match st.s.tasks (nat! t) with
+    | some ⟨.reemit b, .running⟩ =>
+      let n := bufLen st.s.pool b
+      let keep := List.replicate (nat! k) true ++ List.replicate (n - nat! k) false
+      match apply st (.execReemit (nat! t) keep (nat! t')) with
+      | some st' => (st', s!"reem in={n} kept={bufLen st'.s.pool b} done={st'.s.done.length - st.s.done.length} #reemit{if nat! k = 0 then "-none" else if nat! k = n then "-all" else "-some"}")
+      | none => (st, s!"reem DISABLED in={n}")
+    | _ => (st, s!"reem DISABLED {taskStr st.s (nat! t)}")
+  | ["prem", g, t'] =>
+    let d := (st.s.largest (nat! g)).1
+    let b := (st.s.active (nat! g) d).getD 0
+    match apply st (.premature (nat! g) (nat! t')) with
+    | some st' => (st', s!"prem dir={d} buf={b} count={bufLen st'.s.pool b} task={taskStr st'.s (nat! t')} #premature-{if d = 0 then "reemit" else "traverse"}")
+    | none => (st, s!"prem DISABLED largest={(st.s.largest (nat! g)).1},{(st.s.largest (nat! g)).2} locked={lockHeld st.cfg st.s (.sub (nat! g))}")
+  | ["largest", g] => (st, s!"largest {(st.s.largest (nat! g)).1} {(st.s.largest (nat! g)).2}")
+  | ["term"] =>
+    match apply st .checkTermination with
+    | some st' => (st', "term ok #termination")
+    | none => (st, s!"term DISABLED done={st.s.done.length} pool-empty={poolEmpty st.cfg st.s}")
+  | ["end"] =>
+    let s := st.s
+    let bufs := ((List.range st.cfg.bufCap).filter fun b => (s.pool b).isSome).length
+    let alive := countTasks st fun _ => true
+    let queued := countTasks st fun tk => tk.st == .queued
+    let act := ((List.range st.nsub).map fun g => ((List.range NDIR).filter fun i => (s.active g i).isSome).length).sum
+    let cont := ((List.range st.cfg.nblocks).map fun b => ((List.range st.cfg.norig).map fun g => (s.cont (b, g)).length).sum).sum
+    let src := ((List.range st.cfg.nsrc).map fun i => (s.srcLeft i).length).sum + s.contPool.length
+    let sorted := (s.done.toArray.qsort (· < ·)).toList
+    let once := sorted == List.range st.cfg.N
+    (st, s!"end done={s.done.length} bufs={bufs} tasks={alive} queued={queued} active={act} cont={cont} src={src} run={if s.run then 1 else 0} once={if once then "ok" else "BAD"}")
+  | "split" :: rest =>
+    -- split | nThis:ncopy ... | picks ...
+    match splitBar rest with
+    | [_, srcs, picks] =>
+      let ss := srcs.map fun w => match (w.splitOn ":").map nat! with | [a, b] => (a, b) | _ => (0, 1)
+      (st, s!"split {showList (splitTotals ss (parseNats picks))}")
+    | _ => (st, "bad-op")
+  | ["batches", mx, tot] =>
+    (st, s!"batches {showList (batches (nat! mx) (nat! tot + 1) (nat! tot))}")
+  | _ => (st, "bad-op")
+
+def main : IO Unit := runDriver handle ({} : St)
